@@ -593,3 +593,32 @@ class Families:
             pre, stk = self.ex['states'][a]
             out.append(((st, term), pre + ((t,) if t != END else ())))
         return out
+
+    def kw_family(self, keys):
+        """texts for every production that carries a `kw_parameter_list` (USING/SET option lists): the list is
+        instantiated with every key of `keys` x every value form, and with every ordered pair of keys"""
+        m = self.m
+        if 'kw_parameter_list' not in m.nonterminals:
+            return []
+        ctx = self._contexts()
+        values = ['abc', "'s'", '1', '1.5', 'NULL', 'TRUE', '{"a": 1}', '[1, 2]', 'f(a = 1)', 'a.b', "''", '"d"']
+        lists = []
+        for k in keys:
+            for v in values:
+                lists.append(f'{k} = {v}')
+        for k1 in keys:
+            for k2 in keys:
+                for v1 in ('abc', "'s'"):
+                    for v2 in ('abc', "'s'"):
+                        lists.append(f'{k1} = {v1}, {k2} = {v2}')
+        out = []
+        for P in m.prods[1:]:
+            if 'kw_parameter_list' not in P.prod or P.name not in ctx:
+                continue
+            cpre, csuf = ctx[P.name]
+            i = P.prod.index('kw_parameter_list')
+            a = m.text_of(cpre + m.min_yield_seq(P.prod[:i]))
+            b = m.text_of(m.min_yield_seq(P.prod[i + 1:]) + csuf)
+            for l in lists:
+                out.append(f'{a} {l} {b}'.strip())
+        return out
